@@ -365,7 +365,7 @@ fn tz_layer(col: &Collector) {
 
 fn cli_layer(col: &Collector) {
     // the real binary: exit status 0 and no "panicked" on stderr for one case per group
-    let bin = format!("{}/target/cli/release/sqlgrep", VERIF_DIR);
+    let bin = format!("{}/target/cli/release/sqlgrep", verif_dir());
     if !std::path::Path::new(&bin).exists() {
         col.note("CLI binary not built; CLI layer skipped".into());
         return;
